@@ -277,8 +277,11 @@ def run(prog, rep):
             rep.check(ok, "C13.CORE", "%s :: %s" % (name, pat.split("::")[-1].rstrip("$")), f.loc(), "on every path to an Ok result",
                       "%s can return a result without going through %s (a shortcut or re-implementation replaces the documented primitive)" % (name, pat.split("|")[0].rstrip("$")))
         if name in FIELD:
+            from ..lib.cfgq import return_carriers
+            rc = return_carriers(body)      # only what the function itself returns (a spliced helper's `Ok(..)` feeds a `?`)
             oks = [canon(tr.operand(st["rv"]["ops"][0])) for b in sorted(body.reachable()) for st in body.blocks[b]["stmts"]
-                   if st["k"] == "assign" and st["rv"]["k"] == "aggregate" and st["rv"].get("adt") == "std::result::Result" and st["rv"].get("variant") == "Ok"]
+                   if st["k"] == "assign" and st["rv"]["k"] == "aggregate" and st["rv"].get("adt") == "std::result::Result" and st["rv"].get("variant") == "Ok"
+                   and "p" not in st["p"] and st["p"]["l"] in rc]
             want_pos = "Node::start_position(" if name.startswith("start") else "Node::end_position("
             good = len(oks) == 1 and re.search(r"\.%s\)\}$" % FIELD[name], oks[0]) is not None and want_pos in oks[0] and "graph::Value::Integer{" in oks[0]
             rep.check(good, "C13.CORE", "%s :: field" % name, f.loc(), "Integer(node.%s_position().%s)" % (name.split("-")[0], FIELD[name]), "%s returns %s" % (name, oks))
